@@ -148,7 +148,7 @@ type World struct {
 	// OnStep, when set, is called by the scheduler after every step (omniscient invariant checks).
 	OnStep func()
 	// OnOp, when set, is called by the scheduler for every task operation it resumes, with the decision taken.
-	OnOp func(t *Task, op *Op, d Decision)
+	OnOp   func(t *Task, op *Op, d Decision)
 	nextID int
 }
 
@@ -490,8 +490,11 @@ func (w *World) pickWeighted(en []runnable, lastIdx int) int {
 func (w *World) runTask(t *Task) {
 	op := t.pending
 	var d Decision
-	if len(op.Faults) > 0 && w.Policy != nil {
+	if w.Policy != nil && (op.Sys || len(op.Faults) > 0) {
 		d = w.Policy(t, op)
+		if d.Err != 0 && len(op.Faults) == 0 {
+			d.Err = 0 // this call cannot fail this way
+		}
 	}
 	if op.Sys {
 		w.Stats.Syscalls++
